@@ -37,6 +37,19 @@ def build(chk):
     chk.add(ob('O4.Box_IntersectsTask', 'h_box_intersects_task', 'hand-written task (PyImathBox.cpp): results[p] = box.intersects(points[p]) for start <= p < end only', bounds=B + '; Box3i and V3i points with arbitrary contents', timeout=400))
     chk.add(ob('O4.Box_ExtendByTask', 'h_box_extend_task', 'hand-written task (PyImathBox.cpp): ExtendByTask::execute(start,end,tid) extends the worker box boxes[tid] - whatever it already holds - by points[start..end) and leaves the other workers\' boxes alone (inductive step: any number of sub-ranges per worker id, any order)',
                bounds=B + '; three worker boxes with arbitrary contents, arbitrary worker id, V3i points with arbitrary contents', timeout=400, unwind=max(6 * N + 8, 20)))
+    # ---- hand-written floating-point tasks (PyImathQuat.cpp), FP arithmetic uninterpreted on both sides
+    e2 = EngB(chk, 'pytask2', py=True, validate=False)
+    e2.variant('ufar', uf=['add', 'sub', 'mul', 'div', 'sqrt'])
+    f2 = e2.u.parsed().funcs
+    N2 = 1 if chk.tier != 'thorough' else 2
+    d2 = ('N=%d' % N2, 'QA_T=T_' + cname(f2['@w_qtask_mul'].params[0][0].to.name), 'VA3_T=T_' + cname(f2['@w_qtask_rotate'].params[1][0].to.name),
+          'QEL_T=T_' + cname(f2['@w_qref_mul'].params[0][0].to.name), 'VEL_T=T_' + cname(f2['@w_qref_rotate'].params[1][0].to.name))
+    B2 = 'every sub-range of arrays of length <= %d, arbitrary element bit patterns, arbitrary guard-zone contents; FP + - * / sqrt uninterpreted on both sides' % N2
+    for hn, what in (('inverse', 'QuatArray_Inverse: result[i] = quats[i].inverse()'),):
+        for rs, as_ in ((1, 2), (2, 1)):
+            chk.add(e2.ob('O5.QuatTask.%s.rstride%d_astride%d' % (hn, rs, as_), 'c20/tasks2.c', 'h_qtask_' + hn, 'hand-written task (PyImathQuat.cpp) ' + what + ' for start <= i < end only', variant='ufar',
+                          defines=d2 + ('RSTRIDE=%d' % rs, 'ASTRIDE=%d' % as_), extra=('--pointer-overflow-check', '--object-bits', '13'), unwind=max(2 * N2 + 1, 4) + 2, timeout=600, backends=('z3', 'kissat', 'minisat'), bounds=B2 + '; direct arrays, result stride %d, argument stride %d' % (rs, as_)))
+    chk.outside += ['hand-written FP tasks with two argument arrays (QuatArray_Mul, RotateVector, RmulVec3Array; Matrix44/Matrix33 array tasks): harnesses exist (harness/c20/tasks2.c) but CBMC did not decide them within 400 s / ran out of memory at length 1, so they are not registered']
     chk.stubs += ['__cxa_begin_catch / std::terminate (unreachable)', 'shared_array reference counts start at 1000']
     chk.assumptions += ['tasks are built by the wrapper exactly as VectorizedFunctionN::apply builds them: one accessor per argument of the kind matching the array (direct / masked / scalar wrapper)',
                         'pen-and-paper step: (i) result[i] == op(args[i]) on [start,end), (ii) nothing else written, (iii) arguments only read, for EVERY sub-range  ==>  the outcome of any partition of [0,len), in any order or concurrently, equals the single-range outcome; threads themselves are not encoded',
